@@ -68,6 +68,16 @@ pub enum Op {
     Drop {
         h: SlotId,
     },
+    /// another grammar is compiled and driven on the same (shared) factory first: whatever the
+    /// factory-level objects (slicer, perf counters) remember must not leak into other engines
+    Warm {
+        #[serde(default, skip_serializing_if = "Option::is_none")]
+        alt: Option<usize>,
+        kind: crate::corpus::GKind,
+        text: String,
+        steps: usize,
+        seed: u64,
+    },
     // ---- read-only queries (they do touch hidden state: caches, lexer tables, row reuse)
     Mask {
         h: SlotId,
